@@ -186,6 +186,7 @@ impl State {
         let first_hole = obj.first_hole();
         let limit = first_hole.unwrap_or(obj.cells.len());
         let mut pos = 0usize;
+        let mut cell_iter = obj.cells.iter();
         for (si, slice) in sp.iter().enumerate() {
             if slice.is_empty() {
                 return Err(fail(
@@ -225,7 +226,7 @@ impl State {
                         ),
                     ));
                 }
-                let want = obj.cells[pos];
+                let want = *cell_iter.next().expect("harness: pos < limit <= cells.len()");
                 if want != *b as u32 {
                     return Err(fail(
                         content_tag.0,
@@ -346,8 +347,8 @@ impl State {
                 ),
             ));
         }
-        for (i, b) in flat.iter().enumerate() {
-            if obj.cells[i] != *b as u32 {
+        for (i, (b, c)) in flat.iter().zip(obj.cells.iter()).enumerate() {
+            if *c != *b as u32 {
                 return Err(fail(
                     content_tag.0,
                     content_tag.1,
